@@ -9,6 +9,7 @@ SRC = "/repo"
 M = "/tmp/ris/mrepo"
 RIS = "curve25519-dalek/src/ristretto.rs"
 CM = "curve25519-dalek/src/backend/serial/curve_models/mod.rs"
+K64 = "curve25519-dalek/src/backend/serial/u64/constants.rs"
 MUTS = [
     # decompress: remove each of the five rejection tests
     ("decompress.drop-canonical-check", RIS, "if (!s_encoding_is_canonical | s_is_negative).into() {", "if (s_is_negative).into() {"),
@@ -38,9 +39,13 @@ MUTS = [
     ("from_uniform_bytes.second-half-is-first-half", RIS, "r_2_bytes.copy_from_slice(&bytes[32..64]);", "r_2_bytes.copy_from_slice(&bytes[0..32]);"),
     ("neg.identity-instead-of-neg", RIS, "RistrettoPoint(-&self.0)", "RistrettoPoint(self.0)"),
     ("sub.adds", RIS, "RistrettoPoint(self.0 - other.0)", "RistrettoPoint(self.0 + other.0)"),
+    # a sign flip of a constant: still satisfies the defining equation x^2 == -d-1 (so unit CONST64 cannot see it), but is not the RFC numeral
+    ("const.SQRT_AD_MINUS_ONE-negated", K64, "    2241493124984347,\n    425987919032274,\n    2207028919301688,\n    1220490630685848,\n    974799131293748,\n",
+     "    10306688700882,\n    1825811894652973,\n    44770894383559,\n    1031309182999399,\n    1277000682391499,\n"),
     ("coset4.wrong-torsion-index", RIS, "self.0 + constants::EIGHT_TORSION[4],", "self.0 + constants::EIGHT_TORSION[3],"),
 ]
 def run(name, rel, old, new):
+    os.makedirs("/tmp/ris", exist_ok=True)
     if os.path.exists(M):
         shutil.rmtree(M)
     shutil.copytree(os.path.join(SRC, "curve25519-dalek/src"), os.path.join(M, "curve25519-dalek/src"))
